@@ -41,6 +41,7 @@ def blob_strategy(n):
         st.tuples(st.just('rollback'), st.integers(0, 3)), st.tuples(st.just('rollback'), st.integers(0, 1)),
         st.tuples(st.just('read'), i),
         st.tuples(st.just('minimize')),
+        st.tuples(st.just('other'), d, st.integers(0, 2)),
         st.tuples(st.just('commit')), st.tuples(st.just('abort')),
     ).map(list)
     return st.fixed_dictionaries({'blob_kind': st.sampled_from(['fs', 'bmap']),
